@@ -487,7 +487,7 @@ class NumericValue(Value):
             self.int = int(data.group("value"), 10)
             if self.int > 32768:
                 raise ValueTypeError("integer value cannot be below -32768")
-            self.negative = True
+            self.negative = self.int != 0
             # self.post_init_direct_check()
             return
 
